@@ -169,6 +169,89 @@ theorem VTs_single {args : List Val} {t : Ty} (h : VTs S P args [t]) : ∃ a, ar
   cases h with
   | cons h1 h2 => cases h2; exact ⟨_, rfl, h1⟩
 
+/-! ### arrays, vectors -/
+
+theorem VTall_get : ∀ {vs : List Val} {e : Ty}, VTall S P vs e → ∀ (i : Nat) (v : Val), vs[i]? = some v → VT S P v e := by
+  intro vs
+  induction vs with
+  | nil => intro e _ i v h; simp at h
+  | cons a vs ih =>
+    intro e h i v hv
+    cases h with
+    | cons h1 h2 =>
+      cases i with
+      | zero => simp at hv; subst hv; exact h1
+      | succ i => simp at hv; exact ih h2 i v hv
+
+theorem VTall_set : ∀ {vs : List Val} {e : Ty}, VTall S P vs e → ∀ (i : Nat) (v : Val), VT S P v e → VTall S P (vs.set i v) e := by
+  intro vs
+  induction vs with
+  | nil => intro e h i v _; simpa using h
+  | cons a vs ih =>
+    intro e h i v hv
+    cases h with
+    | cons h1 h2 =>
+      cases i with
+      | zero => simp only [List.set_cons_zero]; exact .cons hv h2
+      | succ i => simp only [List.set_cons_succ]; exact .cons h1 (ih h2 i v hv)
+
+theorem VTall_append : ∀ {vs : List Val} {e : Ty}, VTall S P vs e → ∀ (v : Val), VT S P v e → VTall S P (vs ++ [v]) e := by
+  intro vs
+  induction vs with
+  | nil => intro e _ v hv; exact .cons hv .nil
+  | cons a vs ih =>
+    intro e h v hv
+    cases h with
+    | cons h1 h2 => simp only [List.cons_append]; exact .cons h1 (ih h2 v hv)
+
+theorem VTs_length : ∀ {vs : List Val} {ts : List Ty}, VTs S P vs ts → vs.length = ts.length := by
+  intro vs
+  induction vs with
+  | nil => intro ts h; cases h; rfl
+  | cons a vs ih => intro ts h; cases h with | cons _ h2 => simp [ih h2]
+
+theorem VTs_all : ∀ {vs : List Val} {ts : List Ty} {e : Ty}, VTs S P vs ts → (∀ t ∈ ts, t = e) → VTall S P vs e := by
+  intro vs
+  induction vs with
+  | nil => intro ts e h _; exact .nil
+  | cons a vs ih =>
+    intro ts e h hall
+    cases h with
+    | cons h1 h2 =>
+      have := hall _ List.mem_cons_self
+      subst this
+      exact .cons h1 (ih h2 (fun t ht => hall t (List.mem_cons_of_mem _ ht)))
+
+theorem allTyEq_all {e : Ty} : ∀ {ts : List Ty}, allTyEq e ts = true → ∀ t ∈ ts, t = e := by
+  intro ts
+  induction ts with
+  | nil => intro _ t ht; cases ht
+  | cons u us ih =>
+    intro h t ht
+    simp only [allTyEq, Bool.and_eq_true] at h
+    rcases List.mem_cons.1 ht with rfl | ht
+    · exact ((tyBeq_iff e t).1 h.1).symm
+    · exact ih h.2 t ht
+
+theorem getTys_length (es : List Expr) : (getTys es).length = es.length := by
+  induction es with
+  | nil => rfl
+  | cons e es ih => simp [getTys, ih]
+
+theorem VT_array {v : Val} {n : Nat} {e : Ty} (h : VT S P v (.array n e)) : ∃ vs, v = .array vs ∧ vs.length = n ∧ VTall S P vs e := by
+  cases h with
+  | array h1 h2 => exact ⟨_, rfl, h2, h1⟩
+  | enumV h1 _ _ => simp [isEnumTy] at h1
+  | structV h1 _ _ => simp [isStructTy] at h1
+
+theorem VT_vec {v : Val} {e : Ty} (h : VT S P v (.vec e)) : ∃ vs, v = .vec vs ∧ VTall S P vs e := by
+  cases h with
+  | vec h1 => exact ⟨_, rfl, h1⟩
+  | enumV h1 _ _ => simp [isEnumTy] at h1
+  | structV h1 _ _ => simp [isStructTy] at h1
+
+theorem VT_anyint {v : Val} {b : Nat} {s : Bool} (h : VT S P v (.int b s)) : ∃ x, v = .int b s x := VT_int h
+
 /-! ### environments -/
 
 theorem lookupEnv_cons (k : String) (v : Val) (ρ : Env) (x : String) :
@@ -297,6 +380,8 @@ theorem valKey_of_VT {v : Val} {τ : Ty} (hc : concreteTy τ = true) (h : VT S P
   | float _ _ _ => rfl
   | str => rfl
   | tuple _ => simp [concreteTy] at hc
+  | array _ _ => simp [concreteTy] at hc
+  | vec _ => simp [concreteTy] at hc
   | @enumV n idx args _ fts h1 h2 _ =>
     have hn := enumFieldTys_nominal h2
     cases τ <;> simp [concreteTy] at hc <;> simp [isEnumTy] at h1
